@@ -233,6 +233,28 @@ theorem fetch_reads_matching (fs : FS) (c : Cache) (crc : Nat) (v : JVal)
 def Cache.Stored (c : Cache) : Prop :=
   ∀ p ∈ c.files, ∃ d crc', crc' < 4294967296 ∧ p = storedName d crc'
 
+/-- `open(p, 'w')` either raises or leaves every readable file, the directories and the flag as they are -/
+theorem openW_some {fs fs' : FS} {d p : Path} (h : fs.openW d p = some fs') :
+    fs'.files = fs.files ∧ fs'.dirs = fs.dirs ∧ fs'.readonly = fs.readonly ∧ fs.canWrite d = true ∧
+    (∀ g ∈ fs'.ghosts, g ∈ fs.ghosts) := by
+  unfold FS.openW at h
+  by_cases hw : fs.canWrite d = true
+  · simp only [hw, if_true] at h
+    cases hg : fs.ghostAt p with
+    | none => rw [hg] at h; simp only [Option.some.injEq] at h; subst h; exact ⟨rfl, rfl, rfl, hw, fun g hg => hg⟩
+    | some k =>
+      rw [hg] at h
+      cases k with
+      | dangling =>
+        simp only [Option.some.injEq] at h; subst h
+        exact ⟨rfl, rfl, rfl, hw, fun g hg => (List.mem_filter.1 hg).1⟩
+      | dir => cases h
+      | noperm => cases h
+  · simp [hw] at h
+
+theorem read_openW {fs fs' : FS} {d p : Path} (h : fs.openW d p = some fs') (q : Path) : fs'.read q = fs.read q := by
+  unfold FS.read; rw [(openW_some h).1]
+
 theorem insert_files (fs : FS) (c : Cache) (crc : Nat) (toc : Toc) :
     (c.insert fs crc toc).2.files = c.files ∨
     ∃ d, c.rw = some d ∧ (c.insert fs crc toc).2.files = c.files ++ [storedName d crc] := by
@@ -241,9 +263,9 @@ theorem insert_files (fs : FS) (c : Cache) (crc : Nat) (toc : Toc) :
   | none => left; rfl
   | some d =>
     simp only [insertName_eq]
-    by_cases hw : fs.canWrite d = true
-    · right; exact ⟨d, rfl, by simp [hw, storedName]⟩
-    · left; simp [hw]
+    cases ho : fs.openW d (d ++ 47 :: (hex08 crc ++ dotJson)) with
+    | none => left; rfl
+    | some fs' => right; exact ⟨d, rfl, rfl⟩
 
 theorem insert_rw (fs : FS) (c : Cache) (crc : Nat) (toc : Toc) : (c.insert fs crc toc).2.rw = c.rw := by
   unfold Cache.insert
@@ -251,7 +273,7 @@ theorem insert_rw (fs : FS) (c : Cache) (crc : Nat) (toc : Toc) : (c.insert fs c
   | none => simp [hrw]
   | some d =>
     simp only [insertName_eq]
-    by_cases hw : fs.canWrite d = true <;> simp [hw, hrw]
+    cases ho : fs.openW d (d ++ 47 :: (hex08 crc ++ dotJson)) <;> simp [hrw]
 
 theorem insert_stored (fs : FS) (c : Cache) (crc : Nat) (toc : Toc) (hc : crc < 4294967296) (hs : c.Stored) :
     (c.insert fs crc toc).2.Stored := by
@@ -272,12 +294,13 @@ theorem insert_read (fs : FS) (c : Cache) (crc : Nat) (toc : Toc) (p : Path)
   | none => rfl
   | some d =>
     simp only [insertName_eq]
-    by_cases hw : fs.canWrite d = true
-    · simp only [hw, if_true, read_write]
+    cases ho : fs.openW d (d ++ 47 :: (hex08 crc ++ dotJson)) with
+    | none => rfl
+    | some fs' =>
+      simp only [read_write, read_openW ho]
       have := h d hrw
       unfold storedName at this
       simp [this]
-    · simp [hw]
 
 theorem insertCut_read (fs : FS) (c : Cache) (crc : Nat) (toc : Toc) (k : Nat) (p : Path)
     (h : ∀ d, c.rw = some d → p ≠ storedName d crc) : (c.insertCut fs crc toc k).1.read p = fs.read p := by
@@ -286,12 +309,13 @@ theorem insertCut_read (fs : FS) (c : Cache) (crc : Nat) (toc : Toc) (k : Nat) (
   | none => rfl
   | some d =>
     simp only [insertName_eq]
-    by_cases hw : fs.canWrite d = true
-    · simp only [hw, if_true, read_write]
+    cases ho : fs.openW d (d ++ 47 :: (hex08 crc ++ dotJson)) with
+    | none => rfl
+    | some fs' =>
+      simp only [read_write, read_openW ho]
       have := h d hrw
       unfold storedName at this
       simp [this]
-    · simp [hw]
 
 theorem insertCut_cache (fs : FS) (c : Cache) (crc : Nat) (toc : Toc) (k : Nat) : (c.insertCut fs crc toc k).2 = c := by
   unfold Cache.insertCut
@@ -299,7 +323,7 @@ theorem insertCut_cache (fs : FS) (c : Cache) (crc : Nat) (toc : Toc) (k : Nat) 
   | none => rfl
   | some d =>
     simp only [insertName_eq]
-    by_cases hw : fs.canWrite d = true <;> simp [hw]
+    cases ho : fs.openW d (d ++ 47 :: (hex08 crc ++ dotJson)) <;> rfl
 
 theorem init_read (fs : FS) (ro rw : Option Path) (fs' : FS) (c : Cache) (h : Cache.init fs ro rw = .ok (fs', c)) (p : Path) :
     fs'.read p = fs.read p ∧ c.rw = rw := by
